@@ -33,7 +33,10 @@ type c10Params struct {
 	Dynamic   [][2]int      `json:"dynamic,omitempty"`
 	// DynamicWindow: the first numbering is published exactly while GetInfo() is between its nil check and its
 	// channel receive (the point where it logs "waiting first request")
-	DynamicWindow [2]int `json:"dynamic_window,omitempty"`
+	DynamicWindow     [2]int `json:"dynamic_window,omitempty"`
+	FollowerNumbering [2]int `json:"follower_numbering,omitempty"`
+	// DynamicBurstFirst: that many numberings of the dynamic sequence are published before GetInfo() is called at all
+	DynamicBurstFirst int `json:"dynamic_burst_first,omitempty"`
 }
 
 type c10Action struct {
@@ -563,6 +566,109 @@ func c10RunLeader(sc drv.Scenario, p *c10Params) drv.Result {
 	return res
 }
 
+// fakeLeader is the follower's rpc client towards the leader. Like the real client it keeps saying IsConnected() until it is
+// closed; a broken connection shows only in failing calls and heals by Reconnect().
+type fakeLeader struct {
+	mu                              sync.Mutex
+	broken                          bool
+	pings, reconnects, registersOK  int
+	registersFailed, pingsAfterHeal int
+	closed                          bool
+}
+
+func (f *fakeLeader) Close() error { f.mu.Lock(); f.closed = true; f.mu.Unlock(); return nil }
+func (f *fakeLeader) Ping() error {
+	f.mu.Lock()
+	defer f.mu.Unlock()
+	f.pings++
+	if f.broken {
+		return errors.New("connection is shut down")
+	}
+	if f.reconnects > 0 {
+		f.pingsAfterHeal++
+	}
+	return nil
+}
+func (f *fakeLeader) Register() error {
+	f.mu.Lock()
+	defer f.mu.Unlock()
+	if f.broken {
+		f.registersFailed++
+		return errors.New("connection is shut down")
+	}
+	f.registersOK++
+	return nil
+}
+func (f *fakeLeader) IsConnected() bool { f.mu.Lock(); defer f.mu.Unlock(); return !f.closed }
+func (f *fakeLeader) Reconnect() error {
+	f.mu.Lock()
+	defer f.mu.Unlock()
+	f.broken = false
+	f.reconnects++
+	return nil
+}
+func (f *fakeLeader) Rebalance(m, t int) error { return nil }
+
+// c10RunFollower: the real serviceDiscovery on the follower's side.
+func c10RunFollower(sc drv.Scenario, p *c10Params) drv.Result {
+	hx.QuietLogger()
+	cfg := &config.Dcp{}
+	bus := EventBus.New()
+	var mu sync.Mutex
+	var ann []membership.Model
+	_ = bus.Subscribe(helpers.MembershipChangedBusEventName, func(m *membership.Model) {
+		mu.Lock()
+		ann = append(ann, *m)
+		mu.Unlock()
+	})
+	sd := servicediscovery.NewServiceDiscovery(cfg, bus)
+	ld := &fakeLeader{}
+	sd.AssignLeader(servicediscovery.NewService(ld, "leader", time.Now().UnixNano()))
+	sd.StartHeartbeat()
+	defer sd.StopHeartbeat()
+	res := drv.Result{Verdict: drv.Held, Checks: 1, Nontrivial: true, Events: map[string]int{}, TraceHash: drv.Hash("follower", fmt.Sprint(p.FollowerNumbering))}
+	viol := func(clause, detail string) drv.Result {
+		res.Verdict, res.Clause, res.FindingKey, res.Detail = drv.Violated, clause, "C10/follower/"+clause, detail
+		return res
+	}
+	n, t := p.FollowerNumbering[0], p.FollowerNumbering[1]
+	sd.SetInfo(n, t) // the leader's push
+	// the connection to the leader breaks (the leader has lost the registration as well): the follower's next heart-beat
+	// round must re-dial and register again
+	time.Sleep(time.Duration(500+100*(n%5)) * time.Millisecond)
+	ld.mu.Lock()
+	ld.broken = true
+	ld.mu.Unlock()
+	healed := hx.WaitFor(17*time.Second, func() bool {
+		ld.mu.Lock()
+		defer ld.mu.Unlock()
+		return ld.registersOK > 0 && ld.pingsAfterHeal > 0
+	})
+	ld.mu.Lock()
+	st := fmt.Sprintf("pings=%d reconnects=%d registers ok=%d failed=%d pings after the reconnect=%d closed=%v", ld.pings, ld.reconnects, ld.registersOK, ld.registersFailed, ld.pingsAfterHeal, ld.closed)
+	ld.mu.Unlock()
+	if !healed {
+		return viol("not-readmitted", "the connection to the leader broke; within three heart-beat rounds the follower did not re-dial, register again and go on pinging the leader: "+st)
+	}
+	// a leader change after which the new leader pushes the numbering this member already has: no announcement
+	mu.Lock()
+	before := len(ann)
+	mu.Unlock()
+	sd.RemoveLeader()
+	sd.AssignLeader(servicediscovery.NewService(&fakeLeader{}, "leader-2", time.Now().UnixNano()))
+	sd.SetInfo(n, t)
+	bus.WaitAsync()
+	mu.Lock()
+	after := len(ann)
+	all := fmt.Sprint(ann)
+	mu.Unlock()
+	if after != before {
+		return viol("repeated-announcement", fmt.Sprintf("after a leader change the new leader pushed the unchanged numbering %d/%d and it was announced again (announcements: %s)", n, t, all))
+	}
+	res.Sample = map[string]any{"kind": "follower", "numbering": p.FollowerNumbering, "leader_client": st, "announcements": all}
+	return res
+}
+
 func c10RunSmall(sc drv.Scenario, p *c10Params) drv.Result {
 	hx.QuietLogger()
 	res := drv.Result{Verdict: drv.Held, Events: map[string]int{}, Nontrivial: true}
@@ -629,6 +735,9 @@ func c10RunSmall(sc drv.Scenario, p *c10Params) drv.Result {
 	for i, v := range p.Dynamic {
 		bus.Publish(helpers.MembershipChangedBusEventName, &membership.Model{MemberNumber: v[0], TotalMembers: v[1]})
 		bus.WaitAsync()
+		if i < p.DynamicBurstFirst {
+			continue // several numberings arrive before anybody asks for the first time: the latest one counts
+		}
 		got := dm.GetInfo()
 		res.Checks++
 		if got.MemberNumber != v[0] || got.TotalMembers != v[1] {
@@ -737,7 +846,14 @@ func init() {
 						seq = append(seq, v)
 					}
 				}
-				out = append(out, drv.Scenario{Kind: "dynamic", Seed: seed, Params: mustJSON(c10Params{Dynamic: seq}), TimeoutS: 60})
+				out = append(out, drv.Scenario{Kind: "dynamic", Seed: seed, Params: mustJSON(c10Params{Dynamic: seq, DynamicBurstFirst: []int{0, 1, 2, 3}[i%4]}), TimeoutS: 60})
+			}
+			for _, fi := range [][2]int{{1, 1}, {1, 2}, {2, 2}, {3, 4}} {
+				out = append(out, drv.Scenario{Kind: "dynamic-api", Seed: seed, Params: mustJSON(c10Params{FollowerNumbering: fi}), TimeoutS: 120, Solo: true})
+			}
+			for i := 0; i < 2; i++ {
+				t := 2 + rng.Intn(5)
+				out = append(out, drv.Scenario{Kind: "follower", Seed: seed, Params: mustJSON(c10Params{FollowerNumbering: [2]int{2 + rng.Intn(t-1), t}}), TimeoutS: 90, Solo: true})
 			}
 			for i := 0; i < 3; i++ {
 				t := 2 + rng.Intn(6)
@@ -755,6 +871,31 @@ func init() {
 				return c10RunCouchbase(sc, &p)
 			case "leader":
 				return c10RunLeader(sc, &p)
+			case "follower":
+				return c10RunFollower(sc, &p)
+			case "dynamic-api":
+				// a complete client with dynamic membership: the first PUT /membership/info admits it (its stream opens on that chunk)
+				sp := &SessSpec{NumVB: 4, Nodes: 1, PNow: 1, Backend: "mem", Membership: "dynamic", FirstInfo: p.FollowerNumbering, API: true,
+					Backlog: map[int][][]ItemSpec{}, Steps: []Step{{Op: "sleep", Ms: 50}}}
+				drv.NoteFlush("dynamic-api first info %v", p.FollowerNumbering)
+				tr := RunSession(sp)
+				res := drv.Result{Verdict: drv.Held, Checks: 1, Nontrivial: true, Events: map[string]int{}, TraceHash: drv.Hash("dynamic-api", fmt.Sprint(p.FollowerNumbering)),
+					Sample: map[string]any{"kind": "dynamic-api", "first_info": p.FollowerNumbering, "streams_requested": len(tr.Segs)}}
+				put := false
+				for _, r := range tr.Log {
+					if r.K == "ctl.membership" {
+						put = true
+					}
+				}
+				if tr.StartErr != "" {
+					if !put {
+						return drv.Result{Verdict: drv.Inconclusive, Detail: "the first PUT was never accepted: " + tr.StartErr}
+					}
+					res.Verdict, res.Clause, res.FindingKey = drv.Violated, "dynamic", "C10/dynamic/not-admitted"
+					res.Detail = fmt.Sprintf("PUT /membership/info %d/%d was answered 200, yet the client did not open its stream (%s)", p.FollowerNumbering[0], p.FollowerNumbering[1], tr.StartErr)
+					return res
+				}
+				return res
 			}
 			return c10RunSmall(sc, &p)
 		},
